@@ -285,13 +285,49 @@ def required_batches(prop, tier, seed, work, res, quick):
             steps.append({"op": "decode", "ty": t, "in": allmsg[t][0], "dest": "fresh"})
         steps.append({"op": "decode", "ty": t, "in": m, "dest": "fresh"})
         scen.append({"sid": cid, "prop": prop, "vals": [], "steps": steps, "tags": [label], "dkey": cid})
-    return [Batch("required", defs, scen)]
+    return [Batch("required", defs, scen), required_encode_batch(prop, quick)]
+
+
+def required_encode_batch(prop, quick):
+    """the encoder writes every required field, also when it holds a zero or nil value (all kinds, top level and nested,
+    ids on both sides of presence-set words)"""
+    import checks_codec
+    T, L, SET, M, ST, field, struct = U.T, U.L, U.SET, U.M, U.ST, U.field, U.struct
+    defs = U.leaf_structs()
+    kinds = [T(k) for k in U.SCALARS] + [T("binary"), L(T("i32")), SET(T("string")), M(T("string"), T("i32")), ST("Leaf", True), ST("Leaf", False),
+                                         L(ST("Leaf", True)), M(T("i32"), ST("Leaf", True)), L(L(T("i16"))), ST("LeafUnk", True)]
+    ids = [0, 1, 63, 64, 65, 127, 128, 255, 256, 1023, 1024, 4095, 4096, 32767, 32768, 40000, 65534, 65535, 2, 3, 4, 5, 6, 7]
+    defs["ReqAll"] = struct([field(ids[j], "required", t) for j, t in enumerate(kinds)])
+    defs["ReqAllN"] = struct([field(1, "required", ST("ReqAll", True)), field(2, "required", ST("ReqAll", False)), field(3, "required", L(ST("ReqAll", True))),
+                              field(4, "default", M(T("string"), ST("ReqAll", True))), field(5, "optional", ST("ReqAll", True))])
+    # required next to optional / default fields of the same kinds (only the required ones are unconditional)
+    mixed = []
+    for j, t in enumerate(kinds[:12]):
+        mixed.append(field(3 * j + 1, "required", t))
+        opt = dict(t, ptr=True) if t["k"] in U.SCALARS else t
+        mixed.append(field(3 * j + 2, "optional", opt))
+        mixed.append(field(3 * j + 3, "default", t))
+    defs["ReqMixed"] = struct(mixed)
+    U.with_defaults(defs)
+    scen = []
+    for s in ("ReqAll", "ReqAllN", "ReqMixed"):
+        for label, v in U.struct_variants(s, defs, [0, 1, 2], [0, 1, 4]):
+            if quick and not (label in ("base", "zero") or label.endswith("=0") or label.endswith("=1")):
+                continue
+            tags = checks_codec.struct_tags(s, v, defs)
+            steps = [{"op": "size", "ty": s, "v": 0}, {"op": "encode", "ty": s, "v": 0, "buf": {"mode": "rel", "n": 0, "extra": 0}},
+                     {"op": "encode", "ty": s, "v": 0, "byval": True, "buf": {"mode": "rel", "n": 0, "extra": 0}}]
+            if "nil_struct_with_required_fields" not in tags:
+                steps.append({"op": "decode", "ty": s, "from": 1, "dest": "fresh", "orig": 0})
+            sid = "C09-enc-%s-%s" % (s, label)
+            scen.append({"sid": sid, "prop": prop, "vals": [v], "steps": steps, "tags": tags + ["encoder"], "dkey": sid})
+    return Batch("required-encode", defs, scen)
 
 
 # ---- C10 -------------------------------------------------------------------------------------
 def defaults_universe():
     uf = U.universe_fields()
-    defs = {k: uf[k] for k in ("Leaf", "LeafReq", "LeafUnk", "Defaults")}
+    defs = {k: uf[k] for k in ("Leaf", "LeafReq", "LeafUnk", "Defaults", "DefNc", "DefNcN")}
     # writers: everything optional by pointer so that any subset can be omitted on the wire
     dfl = defs["Defaults"]["fields"]
     wf = []
@@ -341,7 +377,7 @@ def defaults_batches(prop, tier, seed, work, res, quick, rng):
     defs_path = vlib.write_defs(work, defs)
     scen = []
     # (1) encoder: presence of optional fields for values equal / different from the default
-    for s in ("Defaults", "DNest", "DTop"):
+    for s in ("Defaults", "DNest", "DTop", "DefNc", "DefNcN"):
         sizes = [0, 1, 2] if quick else [0, 1, 2, 9]
         for salt in ((0,) if quick else (0, 1, 2)):
             for label, v in U.struct_variants(s, defs, sizes, [0, 1, 4], salt):
